@@ -1,1 +1,87 @@
-/-! C04 — property theorems (stub; no obligations yet) -/
+import Ypv.Lemmas.Edit
+/-!
+# C04 — a delete removes exactly the matched nodes, whatever their number or position
+
+Model: `Ypv.delete` (`Model/Edit.lean`) = `Processor.delete_nodes` / `delete_gathered_nodes` /
+`_delete_nodes` as repaired by `fixes/C04-1.patch`, over the list of matched addresses (any list:
+repeats, any order, nested, the root).  Specification: `Ypv.deleteSpec` / `Node.removeAll`
+(`Spec/Edit.lean`).  `deletePositional` is the pinned reverse-order loop.
+-/
+namespace Ypv.C04
+open Ypv
+
+/-- **delete_eq_spec.** For every document and every list of matched addresses — several in one
+sequence, empty containers, the same address listed more than once, in any order, ancestors together
+with their descendants — deleting yields exactly the document minus the matched set
+(removing an ancestor subsumes its descendants), or the root refusal. -/
+theorem delete_eq_spec (d : Node) (addrs : List Addr) : delete d addrs = deleteSpec d addrs := by
+  unfold delete deleteSpec
+  by_cases h : [] ∈ addrs
+  · simp [h]
+  · simp only [h, List.contains_eq_mem, decide_false, Bool.false_eq_true, if_false]
+    rw [deletePositional_eq_removeAll _ _ (noDisturb_normalize addrs)]
+    rw [removeAll_congr d _ _ (fun x => mem_normalizeAddrs)]
+
+/-- **delete_root_refused.** If the root is among the matched nodes the outcome is the
+"no document" YAML Path error and no document is produced: nothing is deleted (the caller keeps `d`). -/
+theorem delete_root_refused (d : Node) (addrs : List Addr) (h : [] ∈ addrs) :
+    delete d addrs = .error (.ypath .noDocument) := by
+  unfold delete; simp [h]
+
+/-- **reverse_positional_eq_set_removal.** The lemma that makes gather-then-delete correct: when no
+gathered reference is disturbed by one standing later in the list (`NoDisturb`: later references are
+never the same element, an elder sibling, or an elder sibling of an ancestor within a sequence — true of
+every list in document order without repeats, and of the normalised list of the repaired code),
+deleting the gathered positions one by one in reverse equals removing the set. -/
+theorem reverse_positional_eq_set_removal (d : Node) (addrs : List Addr) (h : NoDisturb addrs) :
+    deletePositional d addrs = d.removeAll addrs :=
+  deletePositional_eq_removeAll d addrs h
+
+/-- The normalisation of the repaired `_delete_nodes` establishes the premise for any input. -/
+theorem normalize_noDisturb (addrs : List Addr) :
+    NoDisturb (normalizeAddrs addrs) ∧ ∀ x, x ∈ normalizeAddrs addrs ↔ x ∈ addrs :=
+  ⟨noDisturb_normalize addrs, fun _ => mem_normalizeAddrs⟩
+
+/-- **delete_frame.** What survives a set removal, level by level:
+the surviving elements of a sequence are exactly those whose position is not matched, in their
+original relative order, each one cleaned of the matched addresses below it; likewise the entries of
+a mapping (keys unchanged); and a subtree below which no address is matched is returned unchanged.
+Together with `delete_eq_spec` this is the frame of every delete. -/
+theorem delete_frame :
+    (∀ (an : Option Str) (items : List Node) (S : List Addr),
+      (Node.seq an items).removeAll S = .seq an ((items.zipIdx 0).filterMap (fun ci =>
+        if S.contains [.idx ci.2] then none else some (ci.1.removeAll (subAddrs (.idx ci.2) S)))))
+    ∧ (∀ (an : Option Str) (es : List (Key × Node)) (S : List Addr),
+      (Node.map an es).removeAll S = .map an (es.filterMap (fun e =>
+        if S.contains [.key e.1] then none else some (e.1, e.2.removeAll (subAddrs (.key e.1) S)))))
+    ∧ (∀ (d : Node) (S : List Addr), (∀ p ∈ S, p = []) → d.removeAll S = d) :=
+  ⟨fun an items S => by simp [Node.removeAll, removeAllList_eq_filterMap],
+   fun an es S => by simp [Node.removeAll, removeAllEntries_eq_filterMap],
+   removeAll_only_root⟩
+
+/-! ### The hypotheses are met by concrete, non-trivial values; witnesses of the pinned defects -/
+
+def l123 : Node := .map none [(.str ['l'], .seq none [.scalar none (.int 1), .scalar none (.int 2), .scalar none (.int 3)])]
+def L (i : Nat) : Addr := [.key (.str ['l']), .idx i]
+
+/-- document order without repeats satisfies `NoDisturb` -/
+example : NoDisturb [L 0, L 2] := by unfold NoDisturb; decide +kernel
+example : deletePositional l123 [L 0, L 2] = .map none [(.str ['l'], .seq none [.scalar none (.int 2)])] := by
+  decide +kernel
+/-- the same node twice: the pinned loop removes two elements (`(l[0])+(l[0])`), the repaired delete one -/
+example : deletePositional l123 [L 0, L 0] = .map none [(.str ['l'], .seq none [.scalar none (.int 3)])] := by
+  decide +kernel
+example : delete l123 [L 0, L 0] = .ok (.map none [(.str ['l'], .seq none [.scalar none (.int 2), .scalar none (.int 3)])]) := by
+  decide +kernel
+/-- out of order: the pinned loop removes a wrong element (`(l[1])+(l[0])`) -/
+example : deletePositional l123 [L 1, L 0] = .map none [(.str ['l'], .seq none [.scalar none (.int 2)])] := by
+  decide +kernel
+example : delete l123 [L 1, L 0] = .ok (.map none [(.str ['l'], .seq none [.scalar none (.int 3)])]) := by
+  decide +kernel
+/-- root among the matches: the pinned loop has already deleted `l[0]` when it refuses (`(/)+(l[0])`) -/
+example : deletePinned l123 [[], L 0] =
+    (.map none [(.str ['l'], .seq none [.scalar none (.int 2), .scalar none (.int 3)])], some (.ypath .noDocument)) := by
+  decide +kernel
+example : delete l123 [[], L 0] = .error (.ypath .noDocument) := by decide +kernel
+
+end Ypv.C04
